@@ -167,7 +167,8 @@ def run_history(py7zr, hist, workdir, *, target="path", filters_by_session=None,
             # py7zr does not read this foreign archive correctly to begin with: reader conformance is C06, not C08
             return [{"e": "skip", "why": "base not read correctly by py7zr: " + first.get("err", "")[:80]}]
         trace.append({"e": "base", "members": first["members"], "metas": first["metas"],
-                      "refmetas": first["ref"]["metas"] if first["ref"].get("present") and first["ref"].get("ok") else []})
+                      "refmetas": first["ref"]["metas"] if first["ref"].get("present") and first["ref"].get("ok") else [],
+                      "times2": first["ref"].get("times2", []) if first["ref"].get("present") and first["ref"].get("ok") else []})
         sess = 1
     if target.startswith("stream"):
         stream = io.BytesIO(open(arc_path, "rb").read() if base is not None else b"")
@@ -379,7 +380,7 @@ KINDCODE = {"file": 1, "dir": 2, "empty": 3, "symlink": 4}
 def limbs(v, width=3):
     """non-negative int -> 20-bit limbs (TLC integers are 32-bit); None -> [-1]"""
     if v is None:
-        return [-1]
+        return [-1] * (width + 1)
     return [(v >> (20 * i)) % (1 << 20) for i in range(width)] + [v >> (20 * width)]
 
 
@@ -412,4 +413,6 @@ def ref_reader(raw, password, by_name, by_hash):
             c = by_hash.get(hashlib.sha256(m["data"]).digest(), -1)
         out["members"].append({"n": n, "c": c})
         out["metas"].append([n, c, KINDCODE.get(m["kind"], 0)] + limbs(m["mtime"]) + limbs(m["attrib"], 1))
+        # creation and last-access time: judged apart from the trace (a known finding must not end the validation of the rest)
+        out.setdefault("times2", []).append([m.get("ctime"), m.get("atime")])
     return out
